@@ -54,12 +54,35 @@ theorem C05_list_order_preserved (l : List Bytes) : readStrings (l.map B) = .ok 
 /-- **An unknown command** yields an error reply without invoking any handler or touching any state. -/
 theorem C05_unknown_command (pf : FloatOracle) (srv : SrvSt) (conn : ConnSt) (cmd : Bytes) (args : List Msg)
     (h1 : upper cmd ∉ systemNames) (h2 : (userTable pf).lookup (upper cmd) = none)
-    (h3 : upper cmd ∉ nestedNames) :
+    (h3 : upper cmd ∉ nestedNames) (h4 : upper cmd ∉ srv.appGet) :
     executeCommand pf srv conn cmd args = .ret (.reply (notSupported cmd), conn, srv) := by
   simp [nestedNames] at h3
   by_cases hh : srv.hasHandler = true
-  · simp [executeCommand, hh, execSystem_none srv conn _ args h1, execUser, h2, nested1, h3]
+  · simp [executeCommand, hh, execSystem_none srv conn _ args h1, execUser, h2, nested1, h3, h4]
   · simp [executeCommand, hh]
+
+/-- **Executors registered by the application are dispatched the same way**: a name the application registered (in
+upper case, as the built-in names are; not one of the framework's own names) is found for every letter-case spelling
+the client uses (`cmd` is any byte string whose `upper` is the registered name — names of any length), behind the same
+span and the same authorization gate as a built-in command; the executor then runs on exactly the arguments sent. -/
+theorem C05_app_executor_dispatched (pf : FloatOracle) (srv : SrvSt) (conn : ConnSt) (cmd : Bytes) (args : List Msg)
+    (hh : srv.hasHandler = true)
+    (h1 : upper cmd ∉ systemNames) (h2 : (userTable pf).lookup (upper cmd) = none) (h3 : upper cmd ∉ nestedNames)
+    (h4 : upper cmd ∈ srv.appGet) :
+    executeCommand pf srv conn cmd args =
+      (gated conn (upper cmd) (shapeS .get args).lift).bind fun o => .ret (o, conn, srv) := by
+  simp [nestedNames] at h3
+  simp [executeCommand, hh, execSystem_none srv conn _ args h1, execUser, h2, nested1, h3, h4]
+
+/-- … and on an authorized connection that is exactly one handler call with the decoded argument, whose result is the
+reply -/
+theorem C05_app_executor_one_call (conn : ConnSt) (ha : conn.authorized = true) (name k : Bytes) (rest : List Msg) :
+    gated conn name (shapeS .get (B k :: rest)).lift =
+      .emit (.start name) (.call (.get k) fun r => .emit .finish (.ret (outOf r))) := by
+  simp [gated, ha, shapeS, withArgs, callRet, UProg.lift, Prog.andFinish]
+
+/-- a 24-byte name in mixed case -/
+example : upper b!"tdigest.ByRevRank_Member" = b!"TDIGEST.BYREVRANK_MEMBER" := by decide
 
 /-- case-insensitive matching: every letter-case variant of a name upper-cases to the name -/
 theorem C05_case_insensitive (c : Bytes) (h : ∀ b ∈ c, (65 ≤ b ∧ b ≤ 90) ∨ (97 ≤ b ∧ b ≤ 122)) :
